@@ -19,6 +19,13 @@ func VerifBSP() {
 	r := sp.Resize(b, n+zzverif.Choose("grow", 8))
 	zzverif.Assert(zzverif.EqBytes(r[:n], secret), "resize_keeps_contents")
 	sp.Put(b)
+	if !zzverif.Symbolic() {
+		// native replay: the engine replaces the contents of a pooled buffer by arbitrary bytes on Put (the previous
+		// owner may still hold the slice and write to it); here the previous owner does exactly that
+		for i := range b[:n] {
+			b[i] = 0xff
+		}
+	}
 	c := sp.Get(2)
 	zzverif.Assert(len(c) == 0, "recycled_slice_empty")
 	if zzverif.SameArray(b, c) {
